@@ -98,6 +98,20 @@ func (fr *frame) call(c *ssa.CallCommon, ins ssa.Instruction, desc string) Val {
 	if callee != nil && callee.Name() == "StructDesc" && callee.Pkg != nil && strings.HasSuffix(callee.Pkg.Pkg.Path(), "/internal/coq") && len(args) == 1 {
 		fr.mentionHookNamed(c.Args[0], "StructDesc", args[0], ins.Pos())
 	}
+	if vc.P.checkMentions && callee != nil {
+		if strings.HasSuffix(callee.String(), ".depTracker).addDep") && len(args) == 2 {
+			label := vc.P.srcText(fr.fn, ins.Pos(), "call")
+			if label == "" {
+				label = "addDep"
+			}
+			vc.depAdds = append(vc.depAdds, nameEvent{term: args[1].S, guard: fr.guard, label: fr.siteLabel(label), pos: pos})
+		} else if pk := vc.P.pkgPathOf(callee); (pk == translatorPkgs[0] || strings.HasSuffix(pk, "/internal/coq")) && !vc.P.isPure(callee) {
+			// a string handed to a translator or printer function may end up in the output
+			for _, a := range args {
+				fr.nameUse(a)
+			}
+		}
+	}
 	if callee == nil {
 		root := fr
 		for root.parent != nil {
